@@ -212,8 +212,12 @@ async def wait_for_dependencies(
     for suc_sim, adapt in sim.successors_to_wait_for.items():
         futures.append(suc_sim.progress.has_reached(next_step + adapt))
     if lazy_stepping:
+        # Only wait for the successors to reach the main time of our next
+        # step. (Sub-times are not comparable along paths that leave
+        # and re-enter a group, so waiting for them can deadlock.)
+        lazy_step = TieredTime(next_step.time, *([0] * (len(next_step) - 1)))
         for suc_sim, adapt in sim.successors.items():
-            futures.append(suc_sim.progress.has_reached(next_step + adapt))
+            futures.append(suc_sim.progress.has_reached(lazy_step + adapt))
 
     await asyncio.gather(*futures)
 
